@@ -1375,6 +1375,43 @@ class Index(DomainMapping):
     def _apply_mapping_(self, value: HashedValue) -> Iterable[HashedValue]:
         yield HashedValue(id_=value.id_, value=value.value[self._key_])
 
+    @cached_property
+    def _all_variable_instances_(self) -> List[Variable]:
+        variables = list(self._child_._all_variable_instances_)
+        if isinstance(self._key_, SymbolicExpression):
+            variables.extend(self._key_._all_variable_instances_)
+        return variables
+
+    def _evaluate__(
+        self,
+        sources: Optional[Dict[int, HashedValue]] = None,
+        parent: Optional[SymbolicExpression] = None,
+    ) -> Iterable[OperationResult]:
+        if not isinstance(self._key_, SymbolicExpression):
+            yield from super()._evaluate__(sources, parent)
+            return
+
+        # the key is an expression over query variables: evaluate it under the bindings of the indexed value
+        sources = sources or {}
+        self._eval_parent_ = parent
+        is_a_condition = self._is_evaluated_as_a_condition_(parent)
+        if self._id_ in sources:
+            yield self._build_operation_result_and_update_truth_value_(
+                OperationResult(sources, False, self),
+                sources[self._id_],
+                is_a_condition,
+            )
+            return
+        for child_result in self._child_._evaluate__(sources, parent=self):
+            container = child_result[self._child_._id_]
+            for key_result in self._key_._evaluate__(child_result.bindings, parent=self):
+                key = key_result[self._key_._id_].value
+                yield self._build_operation_result_and_update_truth_value_(
+                    OperationResult(key_result.bindings, False, self),
+                    HashedValue(id_=container.id_, value=container.value[key]),
+                    is_a_condition,
+                )
+
     @property
     def _name_(self):
         return f"{self._child_._var_._name_}[{self._key_}]"
